@@ -6,6 +6,10 @@ import em_common as E
 RULE = ("as C01 (references of 3-40 atoms; generic, partially collinear, collinear, grid geometries) plus references of one and "
         "two atoms (random completion points recorded from np.random.rand); the map is applied to Q.ref + t with Q a proper "
         "rotation (random axis/angle; one in eight about a coordinate axis by 90, 120 or 180 degrees) and |t_i| <= 50 nm. "
+        "Each case is a call SEQUENCE on one map object: first the untouched reference (the construction Molecule object or "
+        "a fresh copy), then rigidly moved fresh copies, the construction object again, the construction object moved in "
+        "place; every later call is compared with the rigidly moved first result; one moved call in four is a rotation "
+        "about one of the reference atoms (that atom keeps its position exactly). "
         "A case is non-trivial when distinct.")
 
 TOL = 1e-8
@@ -22,64 +26,139 @@ def axis_invariants(x, a, u):
     return np.array([np.linalg.norm(d), ax, np.linalg.norm(d - ax * u)])
 
 
-def motion_failures(spec, Q, t):
-    """the property text for one reference/target pair and one rigid motion; [] = holds"""
+def _pair_failures(spec, nb, per, ref, o1, refp, o2, Q, t, label):
+    """o1 = map(ref), o2 = map(refp) with refp = Q ref + t: the property text for this pair of calls"""
     n = spec["n_ref"]
-    ref = np.array(spec["ref"], dtype=float)
-    Q, t = np.array(Q, dtype=float), np.array(t, dtype=float)
-    if E.min_separation(ref) == 0.0:
-        return []
-    bonds = [tuple(b) for b in spec["bonds"]]
-    if n >= 3 and not E.anchors_of(n, bonds):
-        return []
-    refp = ref @ Q.T + t
-    r1 = E.run_impl(spec, ref)
-    r2 = E.run_impl(spec, refp)
-    for r in (r1, r2):
-        if "err" in r:
-            return ["raised %s" % r["err"]]
-        if not np.isfinite(r["out"]).all():
-            return ["non-finite result"]
-    o1, o2 = r1["out"], r2["out"]
     bad = []
+    if not (np.isfinite(o1).all() and np.isfinite(o2).all()):
+        return ["%s: non-finite result" % label]
     if n == 1:
         for k in range(len(o1)):
             d1, d2 = np.linalg.norm(o1[k] - ref[0]), np.linalg.norm(o2[k] - refp[0])
             if abs(d1 - d2) > TOL:
-                bad.append("one-atom reference: distance of mapped atom %d to the atom %.12g -> %.12g" % (k, d1, d2))
-        return bad[:4]
+                bad.append("%s: one-atom reference: distance of mapped atom %d to the atom %.12g -> %.12g" % (label, k, d1, d2))
+        return bad
     if n == 2:
         u1, u2 = unit(ref[1] - ref[0]), unit(refp[1] - refp[0])
         for k in range(len(o1)):
             i1, i2 = axis_invariants(o1[k], ref[0], u1), axis_invariants(o2[k], refp[0], u2)
             if np.abs(i1 - i2).max() > TOL:
-                bad.append("two-atom reference: (distance, axial coordinate, distance from axis) of mapped atom %d: %s -> %s" % (
-                    k, i1.tolist(), i2.tolist()))
-        return bad[:4]
-    nb = E.neighbours(n, bonds)
-    per = E.per_target_anchor(r1["eq"], len(o1), -1)
-    if r1["eq"] != r2["eq"]:
-        return ["equivalences differ between the two constructions"]
+                bad.append("%s: two-atom reference: (distance, axial coordinate, distance from axis) of mapped atom %d: %s -> %s" % (
+                    label, k, i1.tolist(), i2.tolist()))
+        return bad
     for k in range(len(o1)):
         a = per[k]
-        if a < 0 or len(nb[a]) < 2:
-            bad.append("target atom %d has no valid anchor (%s)" % (k, a))
-            continue
         n1, n2 = nb[a][:2]
         w, d1 = unit(ref[n2] - ref[a]), ref[n1] - ref[a]
         margin = np.linalg.norm(np.cross(w, d1)) / np.linalg.norm(d1)
         if margin >= 1e-3:
             err = np.abs(o2[k] - (Q @ o1[k] + t)).max()
             if err > TOL:
-                bad.append("mapped atom %d (anchor %d): map(R ref+t) - (R map(ref)+t) = %.3g" % (k, a, err))
+                bad.append("%s: mapped atom %d (anchor %d): map(R ref+t) - (R map(ref)+t) = %.3g" % (label, k, a, err))
         elif margin <= 1e-9:
             i1 = axis_invariants(o1[k], ref[a], w)
             i2 = axis_invariants(o2[k], refp[a], unit(refp[n2] - refp[a]))
             if np.abs(i1 - i2).max() > TOL:
-                bad.append("collinear anchor %d: (distance, axial coordinate, distance from axis) of mapped atom %d: %s -> %s" % (
-                    a, k, i1.tolist(), i2.tolist()))
+                bad.append("%s: collinear anchor %d: (distance, axial coordinate, distance from axis) of mapped atom %d: %s -> %s" % (
+                    label, a, k, i1.tolist(), i2.tolist()))
         # 1e-9 < margin < 1e-3: neither "generic" nor "exactly collinear"; the property text defines no expectation
+    return bad
+
+
+def plan_steps(spec, plan):
+    """plan: list of dict(how, Q, t) - how = "copy" (fresh copy at Q ref + t), "inplace" (the construction object moved in
+    place to Q ref + t, then passed), "object" (the construction object as it is; Q, t = its current motion).  Returns the
+    steps for E.run_sequence and the motion of every call."""
+    ref = np.array(spec["ref"], dtype=float)
+    cur = (np.eye(3), np.zeros(3))
+    steps, motions = [], []
+    for pl in plan:
+        if pl["how"] == "object":
+            steps.append({"how": "object"})
+            motions.append(cur)
+            continue
+        Q, t = np.array(pl["Q"], dtype=float), np.array(pl["t"], dtype=float)
+        pos = ref @ Q.T + t
+        if pl.get("pivot") is not None:
+            # rotation about a reference atom: that atom keeps its position exactly (t = p - Q p up to rounding)
+            pos[pl["pivot"]] = ref[pl["pivot"]]
+        steps.append({"how": pl["how"], "pos": pos.tolist()})
+        motions.append((Q, t))
+        if pl["how"] == "inplace":
+            cur = (Q, t)
+    return steps, motions
+
+
+def motion_failures(spec, plan):
+    """The property text on a call sequence of ONE map object.  The first call is made on the untouched reference
+    (identity motion); every later call, on Q ref + t (fresh copy, or the construction object moved in place, or the
+    construction object as it currently is), is compared with the rigidly moved first result."""
+    n = spec["n_ref"]
+    ref = np.array(spec["ref"], dtype=float)
+    if E.min_separation(ref) == 0.0:
+        return []
+    bonds = [tuple(b) for b in spec["bonds"]]
+    if n >= 3 and not E.anchors_of(n, bonds):
+        return []
+    steps, motions = plan_steps(spec, plan)
+    res = E.run_sequence(spec, steps)
+    if "err" in res:
+        return ["raised %s" % res["err"]]
+    nb = E.neighbours(n, bonds)
+    per = E.per_target_anchor(res["eq"], len(spec["tgt"]), -1)
+    if n >= 3:
+        for k in range(len(per)):
+            if per[k] < 0 or len(nb[per[k]]) < 2:
+                return ["target atom %d has no valid anchor (%s)" % (k, per[k])]
+    c0 = res["calls"][0]
+    bad = []
+    for i in range(1, len(res["calls"])):
+        c = res["calls"][i]
+        Q, t = motions[i]
+        bad += _pair_failures(spec, nb, per, c0["pos"], c0["out"], c["pos"], c["out"], Q, t,
+                              "call %d of the sequence (%s) vs call 0" % (i, c["how"]))
+    if not np.array_equal(res["tgt_after"], np.array(spec["tgt"], dtype=float)):
+        bad.append("the target molecule passed to the constructor was modified by the calls")
     return bad[:4]
+
+
+IDENT = {"Q": np.eye(3).tolist(), "t": [0.0, 0.0, 0.0]}
+C02_PATTERNS = [["copy0", "copy"], ["copy0", "copy"], ["object", "copy", "object"], ["object", "inplace", "object", "copy"],
+                ["copy0", "copy", "object", "inplace", "restore"], ["object", "copy", "copy", "object"]]
+
+
+def gen_plan(rs, pattern=None, spec=None):
+    """spec given: one moved call in four is a rotation about one of the reference atoms (that atom does not move)"""
+    if pattern is None:
+        pattern = C02_PATTERNS[rs.randint(len(C02_PATTERNS))]
+    plan = []
+    for how in pattern:
+        if how == "object":
+            plan.append({"how": "object"})
+        elif how == "copy0":
+            plan.append(dict(IDENT, how="copy"))
+        elif how == "restore":
+            plan.append(dict(IDENT, how="inplace"))
+        else:
+            Q, t = gen_motion(rs)
+            pl = {"how": how, "Q": Q.tolist(), "t": t.tolist()}
+            if spec is not None and rs.randint(4) == 0:
+                a = int(rs.randint(spec["n_ref"]))
+                p = np.array(spec["ref"][a], dtype=float)
+                pl["t"] = (p - Q @ p).tolist()
+                pl["pivot"] = a
+            plan.append(pl)
+    return plan
+
+
+def single_plan(Q, t):
+    return [dict(IDENT, how="copy"), {"how": "copy", "Q": np.array(Q).tolist(), "t": np.array(t, dtype=float).tolist()}]
+
+
+def sequence_plan(Q, t):
+    return [{"how": "object"}, {"how": "copy", "Q": np.array(Q).tolist(), "t": np.array(t, dtype=float).tolist()},
+            {"how": "object"}, {"how": "inplace", "Q": np.array(Q).tolist(), "t": np.array(t, dtype=float).tolist()},
+            {"how": "object"}]
 
 
 def gen_motion(rs):
@@ -109,37 +188,40 @@ CORPUS = [
 ]
 
 
+def _corpus_items(ctx):
+    items = [(spec, single_plan(Q, t)) for spec in CORPUS for Q in _ROTS for t in ([0.0, 0.0, 0.0], [12.5, -40.0, 3.25])]
+    items += [(spec, sequence_plan(_ROTS[0], [12.5, -40.0, 3.25])) for spec in CORPUS]
+    items += [(spec, single_plan(_ROTS[0], [12.5, -40.0, 3.25])) for spec in E.shipped_specs(ctx.n(40, 10 ** 6))]
+    return items
+
+
 def corpus(ctx):
     S = ctx.cov["S"]
     S["corpus"] = 0
-    runs = [(spec, Q, t) for spec in CORPUS for Q in _ROTS for t in ([0.0, 0.0, 0.0], [12.5, -40.0, 3.25])]
-    runs += [(spec, _ROTS[0], [12.5, -40.0, 3.25]) for spec in E.shipped_specs(ctx.n(40, 10 ** 6))]
-    for spec, Q, t in runs:
-        bad = motion_failures(spec, Q, t)
+    for spec, plan in _corpus_items(ctx):
+        bad = motion_failures(spec, plan)
         S["corpus"] += 1
         if bad:
-            ctx.violation("rigid motion: " + "; ".join(bad),
-                          {"kind": "c02", "spec": spec, "Q": np.array(Q).tolist(), "t": list(t)}, key="motion")
+            ctx.violation("rigid motion: " + "; ".join(bad), {"kind": "c02", "spec": spec, "plan": plan}, key="motion")
 
 
-def _item(spec, Q, t, stream):
-    refp = np.array(spec["ref"], dtype=float) @ np.array(Q).T + np.array(t)
-    return spec, refp, {"kind": "c02", "stream": stream, "Q": np.array(Q).tolist(), "t": np.array(t).tolist()}
+def _item(spec, plan, stream):
+    return spec, plan_steps(spec, plan)[0], {"kind": "c02", "stream": stream, "plan": plan}
 
 
 def correspondence(ctx):
     rs = ctx.np_rng("K")
-    items = [_item(spec, _ROTS[0], [12.5, -40.0, 3.25], "corpus") for spec in CORPUS + E.shipped_specs(ctx.n(40, 10 ** 6))]
-    for i in range(ctx.n(270, 4000)):
+    items = [_item(spec, plan, "corpus") for spec, plan in _corpus_items(ctx)[len(CORPUS) * len(_ROTS) * 2:]]
+    for i in range(ctx.n(150, 2400)):
         spec = E.gen_spec(rs, E.GEOMS_GENERIC[i % len(E.GEOMS_GENERIC)])
-        items.append(_item(spec, *gen_motion(rs), "generic"))
-    for i in range(ctx.n(150, 2500)):
+        items.append(_item(spec, gen_plan(rs, spec=spec), "generic"))
+    for i in range(ctx.n(90, 1500)):
         spec = E.gen_spec(rs, E.GEOMS_DYADIC[i % len(E.GEOMS_DYADIC)])
-        items.append(_item(spec, *gen_motion(rs), "dyadic"))
-    for i in range(ctx.n(120, 2000)):
+        items.append(_item(spec, gen_plan(rs, spec=spec), "dyadic"))
+    for i in range(ctx.n(70, 1200)):
         spec = E.gen_small_spec(rs, 1 + i % 2)
-        items.append(_item(spec, *gen_motion(rs), "small"))
-    return E.run_K(ctx, items, lambda d: motion_failures(d["spec"], d["Q"], d["t"]))
+        items.append(_item(spec, gen_plan(rs, spec=spec), "small"))
+    return E.run_K(ctx, items, lambda d: motion_failures(d["spec"], d["plan"]))
 
 
 def oracle(ctx, scale):
@@ -149,20 +231,25 @@ def oracle(ctx, scale):
     geoms = ["generic", "generic", "generic", "partial", "collinear_decimal", "collinear_axis", "collinear_diag",
              "collinear_int", "grid", "small1", "small2", "small2"]
     fails = 0
-    hist = {}
+    hist, pats = {}, {}
+    ncalls = 0
     for i in range(n):
         gm = geoms[i % len(geoms)]
         spec = E.gen_small_spec(rs, int(gm[-1])) if gm.startswith("small") else E.gen_spec(rs, gm)
-        Q, t = gen_motion(rs)
-        bad = motion_failures(spec, Q, t)
+        plan = gen_plan(rs, spec=spec)
+        ncalls += len(plan)
+        bad = motion_failures(spec, plan)
         hist[gm] = hist.get(gm, 0) + 1
-        ctx.count(("S", spec["bonds"], spec["ref"], spec["tgt"], spec["s"], Q.tolist(), t.tolist()))
+        pk = ",".join(pl["how"] for pl in plan)
+        pats[pk] = pats.get(pk, 0) + 1
+        ctx.count(("S", spec["bonds"], spec["ref"], spec["tgt"], spec["s"], plan))
         if bad:
             fails += 1
-            ctx.violation("rigid motion: " + "; ".join(bad),
-                          {"kind": "c02", "spec": spec, "Q": Q.tolist(), "t": t.tolist()}, key="motion")
-    S["motion_cases_x%d" % scale] = n
+            ctx.violation("rigid motion: " + "; ".join(bad), {"kind": "c02", "spec": spec, "plan": plan}, key="motion")
+    S["motion_sequences_x%d" % scale] = n
+    S["calls_x%d" % scale] = ncalls
     S["input_distribution"] = hist
+    S["sequence_patterns"] = pats
     S["failures"] = S.get("failures", 0) + fails
 
 
@@ -171,7 +258,8 @@ def replay(ctx, obj):
     if "spec" not in r:
         print("replay names a proof/correspondence, not an input:", r)
         return False
-    bad = motion_failures(r["spec"], r["Q"], r["t"])
+    plan = r["plan"] if "plan" in r else single_plan(r["Q"], r["t"])
+    bad = motion_failures(r["spec"], plan)
     print(bad)
     return not bad
 
